@@ -10,7 +10,8 @@ join is a whole table reference, `-`/`+` fold into integer literals, …) and th
 It is tied to the real parser only by the correspondence run (the LALR tables are not translated).
 
 Recursion: the functions for one nesting level are built from the parsers of the previous level (`Parsers`),
-`parsers (n+1)` from `parsers n`; loops carry their own fuel (the number of remaining tokens).  Core Lean only.
+`parsers (n+1)` from `parsers n`; loops carry their own fuel (the number of tokens at the entry of the level).
+Core Lean only.
 -/
 namespace Octo.Sql
 
@@ -21,6 +22,11 @@ def identOf : Tok → Option String
   | .id s => some s
   | .nrkw v => some v
   | _ => none
+
+/-- is the next token the keyword `k`? -/
+def headIs (k : Kw) : List Tok → Bool
+  | t :: _ => t == Tok.kw k
+  | [] => false
 
 /-! ## Generic combinators -/
 
@@ -40,26 +46,28 @@ def binLoop {Op : Type} (next : P Expr) (opOf : Tok → Option Op) (mk : Op → 
 def binLevel {Op : Type} (next : P Expr) (opOf : Tok → Option Op) (mk : Op → Expr → Expr → Expr) : P Expr := fun ts =>
   match next ts with
   | none => none
-  | some (l, ts') => binLoop next opOf mk (ts'.length + 1) l ts'
+  | some (l, ts') => binLoop next opOf mk (ts.length + 1) l ts'
 
 /-- `(, item)*` -/
 def sepTail {α : Type} (item : P α) : Nat → List Tok → Option (List α × List Tok)
   | 0, _ => none
-  | m + 1, .kw .COMMA :: ts =>
-    match item ts with
-    | none => none
-    | some (x, ts') =>
-      match sepTail item m ts' with
+  | _ + 1, [] => some ([], [])
+  | m + 1, t :: ts =>
+    if t = Tok.kw .COMMA then
+      match item ts with
       | none => none
-      | some (xs, ts'') => some (x :: xs, ts'')
-  | _ + 1, ts => some ([], ts)
+      | some (x, ts') =>
+        match sepTail item m ts' with
+        | none => none
+        | some (xs, ts'') => some (x :: xs, ts'')
+    else some ([], t :: ts)
 
 /-- `item (, item)*` -/
 def sepBy1 {α : Type} (item : P α) : P (List α) := fun ts =>
   match item ts with
   | none => none
   | some (x, ts') =>
-    match sepTail item (ts'.length + 1) ts' with
+    match sepTail item (ts.length + 1) ts' with
     | none => none
     | some (xs, ts'') => some (x :: xs, ts'')
 
@@ -106,24 +114,44 @@ def parseConvTy : P ConvTy
   | .kw .OBJECT_TYPE :: ts => some (.object, ts)
   | _ => none
 
-/-- `as_ci_opt` / `as_opt_id` with a string allowed: `[AS] (sql_id | STRING)` or nothing -/
+/-- an alias token: `sql_id | STRING` -/
+def aliasOf : Tok → Option String
+  | .id s => some s
+  | .nrkw v => some v
+  | .str s => some s
+  | _ => none
+
+/-- `as_ci_opt` / `as_opt_id`: `[AS] (sql_id | STRING)` or nothing -/
 def parseAliasOpt : P String
-  | .kw .AS :: .id s :: ts => some (s, ts)
-  | .kw .AS :: .nrkw s :: ts => some (s, ts)
-  | .kw .AS :: .str s :: ts => some (s, ts)
-  | .kw .AS :: _ => none
-  | .id s :: ts => some (s, ts)
-  | .nrkw s :: ts => some (s, ts)
-  | .str s :: ts => some (s, ts)
-  | ts => some ("", ts)
+  | [] => some ("", [])
+  | t :: rest =>
+    if t = Tok.kw .AS then
+      match rest with
+      | a :: rest' =>
+        match aliasOf a with
+        | some s => some (s, rest')
+        | none => none
+      | [] => none
+    else
+      match aliasOf t with
+      | some s => some (s, rest)
+      | none => some ("", t :: rest)
 
 /-- `as_opt table_id` (mandatory alias of a derived table / table valued function) -/
 def parseAliasMust : P String
-  | .kw .AS :: .id s :: ts => some (s, ts)
-  | .kw .AS :: .nrkw s :: ts => some (s, ts)
-  | .id s :: ts => some (s, ts)
-  | .nrkw s :: ts => some (s, ts)
-  | _ => none
+  | [] => none
+  | t :: rest =>
+    if t = Tok.kw .AS then
+      match rest with
+      | a :: rest' =>
+        match identOf a with
+        | some s => some (s, rest')
+        | none => none
+      | [] => none
+    else
+      match identOf t with
+      | some s => some (s, rest)
+      | none => none
 
 /-- `column_name` (for DESCRIPTOR(...)) as (q2, q1, name) -/
 def parseColumnName : P (String × String × String) := fun ts =>
@@ -159,6 +187,46 @@ def Expr.isValue : Expr → Bool
   | .trigCount _ => false | .trigWm => false | .trigEos => false | .trigDelay _ => false | .order _ _ => false
   | _ => true
 
+def CmpOp.isIn : CmpOp → Bool
+  | .in_ => true | .notIn => true | _ => false
+
+def JoinKind.isInner : JoinKind → Bool
+  | .join => true | _ => false
+def JoinKind.isOuter : JoinKind → Bool
+  | .left => true | .right => true | .outer => true | _ => false
+
+def startsSelect : List Tok → Bool
+  | t :: _ => t == Tok.kw .SELECT || t == Tok.kw .WITH
+  | [] => false
+
+/-- `table_id '.' '*'` and `table_id '.' reserved_table_id '.' '*'` -/
+def parseStarForm : P Expr := fun ts =>
+  match ts with
+  | t1 :: .kw .DOT :: .kw .STAR :: rest =>
+    match identOf t1 with
+    | some a => some (.star "" a, rest)
+    | none => none
+  | t1 :: .kw .DOT :: t2 :: .kw .DOT :: .kw .STAR :: rest =>
+    match identOf t1, identOf t2 with
+    | some a, some b => some (.star a b, rest)
+    | _, _ => none
+  | _ => none
+
+/-- `select_expression` (also the arguments of a function call), with `expr` the expression parser to use.
+    (`t.*` is recognised where the expression parser gives up: `.` `*` cannot continue an expression.) -/
+def parseItemWith (expr : P Expr) : P Expr := fun ts =>
+  if headIs .STAR ts then some (.star "" "", ts.tail)
+  else
+    match expr ts with
+    | none => parseStarForm ts
+    | some (e, rest) =>
+      if headIs .JSON_EXPLODE_OP rest then
+        (if e.isValue then some (.explode e, rest.tail) else none)
+      else
+        match parseAliasOpt rest with
+        | none => none
+        | some (a, rest') => some (.aliased e a, rest')
+
 /-! ## One nesting level, given the parsers of the previous level -/
 
 structure Parsers where
@@ -172,161 +240,169 @@ def Parsers.fail : Parsers := ⟨fun _ => Option.none, fun _ => Option.none, fun
 section level
 variable (prev : Parsers)
 
-/-- `select_expression` (also the arguments of a function call), with `expr` the expression parser to use -/
-def parseItemWith (expr : P Expr) : P Expr := fun ts =>
-  match ts with
-  | .kw .STAR :: rest => some (.star "" "", rest)
-  | _ =>
-    let starForm : Option (Expr × List Tok) :=
-      match ts with
-      | t1 :: .kw .DOT :: .kw .STAR :: rest =>
-        match identOf t1 with
-        | some a => some (.star "" a, rest)
-        | none => none
-      | t1 :: .kw .DOT :: t2 :: .kw .DOT :: .kw .STAR :: rest =>
-        match identOf t1, identOf t2 with
-        | some a, some b => some (.star a b, rest)
-        | _, _ => none
-      | _ => none
-    match starForm with
-    | some r => some r
-    | none =>
-      match expr ts with
-      | none => none
-      | some (e, .kw .JSON_EXPLODE_OP :: rest) => if e.isValue then some (.explode e, rest) else none
-      | some (e, rest) =>
-        match parseAliasOpt rest with
-        | none => none
-        | some (a, rest') => some (.aliased e a, rest')
-
-/-- `openb select_statement closeb` after the `(` has been seen to be followed by SELECT / WITH -/
+/-- `select_statement closeb` -/
 def parseSubqueryBody : P Sel := fun ts =>
   match prev.sel ts with
-  | some (s, .kw .RPAREN :: rest) => some (s, rest)
+  | some (s, t :: rest) => if t = Tok.kw .RPAREN then some (s, rest) else none
   | _ => none
 
-def startsSelect : List Tok → Bool
-  | .kw .SELECT :: _ => true
-  | .kw .WITH :: _ => true
-  | _ => false
+/-- `expression_list closeb` -/
+def parseExprListClose : P (List Expr) := fun ts =>
+  match sepBy1 prev.expr ts with
+  | some (es, t :: rest) => if t = Tok.kw .RPAREN then some (es, rest) else none
+  | _ => none
+
+/-- `select_expression_list closeb` (function arguments) -/
+def parseArgsClose : P (List Expr) := fun ts =>
+  match sepBy1 (parseItemWith prev.expr) ts with
+  | some (es, t :: rest) => if t = Tok.kw .RPAREN then some (es, rest) else none
+  | _ => none
+
+/-- `convert_type closeb` -/
+def parseConvTyClose : P ConvTy := fun ts =>
+  match parseConvTy ts with
+  | some (t, c :: rest) => if c = Tok.kw .RPAREN then some (t, rest) else none
+  | _ => none
+
+/-- after `sql_id openb` / `table_id . reserved_sql_id openb`: the argument list of a function call -/
+def parseCallRest (qual name : String) (allowDistinct : Bool) : P Expr := fun ts =>
+  if headIs .RPAREN ts then some (.func qual name false [], ts.tail)
+  else if headIs .DISTINCT ts then
+    (if allowDistinct then
+      match parseArgsClose prev ts.tail with
+      | some (args, rest) => some (.func qual name true args, rest)
+      | none => none
+     else none)
+  else
+    match parseArgsClose prev ts with
+    | some (args, rest) => some (.func qual name false args, rest)
+    | none => none
+
+/-- after an identifier `a` in expression position: call, qualified call, qualified column, or column -/
+def parseIdentRest (a : String) : P Expr := fun rest =>
+  if headIs .LPAREN rest then parseCallRest prev "" a true rest.tail
+  else if headIs .DOT rest then
+    match rest.tail with
+    | t2 :: rest' =>
+      match identOf t2 with
+      | none => none
+      | some b =>
+        if headIs .LPAREN rest' then parseCallRest prev a b false rest'.tail
+        else if headIs .DOT rest' then
+          match rest'.tail with
+          | t3 :: rest'' =>
+            match identOf t3 with
+            | some c => some (.col a b c, rest'')
+            | none => none
+          | [] => none
+        else some (.col "" a b, rest')
+    | [] => none
+  else some (.col "" "" a, rest)
+
+/-- after `(` in expression position: subquery, parenthesised expression or tuple -/
+def parseParenRest : P Expr := fun rest =>
+  if startsSelect rest then
+    match parseSubqueryBody prev rest with
+    | some (s, rest') => some (.subq s, rest')
+    | none => none
+  else
+    match parseExprListClose prev rest with
+    | some ([e], rest') => some (.paren e, rest')
+    | some (es, rest') => some (.tuple es, rest')
+    | none => none
+
+/-- after `CONVERT (` (sep = `,`) or `CAST (` (sep = AS) -/
+def parseConvertRest (sep : Kw) : P Expr := fun rest =>
+  match prev.expr rest with
+  | some (e, t :: rest') =>
+    if t = Tok.kw sep then
+      match parseConvTyClose rest' with
+      | some (ty, rest'') => some (.convert e ty, rest'')
+      | none => none
+    else none
+  | _ => none
+
+/-- after INTERVAL -/
+def parseIntervalRest : P Expr := fun rest =>
+  match prev.val rest with
+  | some (e, u :: rest') =>
+    match identOf u with
+    | some unit => some (.interval e unit, rest')
+    | none => none
+  | _ => none
 
 /-- atoms of `value_expression` -/
 def parseAtom : P Expr := fun ts =>
   match ts with
+  | [] => none
   | .str s :: rest => some (.val .str false s, rest)
   | .int s :: rest => some (.val .int false s, rest)
   | .float s :: rest => some (.val .float false s, rest)
   | .hexnum s :: rest => some (.val .hexnum false s, rest)
   | .hex s :: rest => some (.val .hex false s, rest)
   | .bit s :: rest => some (.val .bit false s, rest)
-  | .kw .NULL :: rest => some (.null, rest)
-  | .kw .TRUE :: rest => some (.bool true, rest)
-  | .kw .FALSE :: rest => some (.bool false, rest)
-  | .kw .LPAREN :: rest =>
-    if startsSelect rest then
-      match parseSubqueryBody prev rest with
-      | some (s, rest') => some (.subq s, rest')
-      | none => none
-    else
-      match sepBy1 prev.expr rest with
-      | some ([e], .kw .RPAREN :: rest') => some (.paren e, rest')
-      | some (es, .kw .RPAREN :: rest') => some (.tuple es, rest')
-      | _ => none
-  | .kw .INTERVAL :: rest =>
-    match prev.val rest with
-    | some (e, u :: rest') =>
-      match identOf u with
-      | some unit => some (.interval e unit, rest')
-      | none => none
+  | .id a :: rest => parseIdentRest prev a rest
+  | .nrkw a :: rest => parseIdentRest prev a rest
+  | .kw k :: rest =>
+    match k with
+    | .NULL => some (.null, rest)
+    | .TRUE => some (.bool true, rest)
+    | .FALSE => some (.bool false, rest)
+    | .LPAREN => parseParenRest prev rest
+    | .INTERVAL => parseIntervalRest prev rest
+    | .CONVERT => if headIs .LPAREN rest then parseConvertRest prev .COMMA rest.tail else none
+    | .CAST => if headIs .LPAREN rest then parseConvertRest prev .AS rest.tail else none
     | _ => none
-  | .kw .CONVERT :: .kw .LPAREN :: rest =>
-    match prev.expr rest with
-    | some (e, .kw .COMMA :: rest') =>
-      match parseConvTy rest' with
-      | some (t, .kw .RPAREN :: rest'') => some (.convert e t, rest'')
-      | _ => none
-    | _ => none
-  | .kw .CAST :: .kw .LPAREN :: rest =>
-    match prev.expr rest with
-    | some (e, .kw .AS :: rest') =>
-      match parseConvTy rest' with
-      | some (t, .kw .RPAREN :: rest'') => some (.convert e t, rest'')
-      | _ => none
-    | _ => none
-  | t1 :: rest =>
-    match identOf t1 with
-    | none => none
-    | some a =>
-      match rest with
-      | .kw .LPAREN :: .kw .RPAREN :: rest' => some (.func "" a false [], rest')
-      | .kw .LPAREN :: .kw .DISTINCT :: rest' =>
-        match sepBy1 (parseItemWith prev.expr) rest' with
-        | some (args, .kw .RPAREN :: rest'') => some (.func "" a true args, rest'')
-        | _ => none
-      | .kw .LPAREN :: rest' =>
-        match sepBy1 (parseItemWith prev.expr) rest' with
-        | some (args, .kw .RPAREN :: rest'') => some (.func "" a false args, rest'')
-        | _ => none
-      | .kw .DOT :: t2 :: rest' =>
-        match identOf t2 with
-        | none => none
-        | some b =>
-          match rest' with
-          | .kw .LPAREN :: .kw .RPAREN :: rest'' => some (.func a b false [], rest'')
-          | .kw .LPAREN :: rest'' =>
-            match sepBy1 (parseItemWith prev.expr) rest'' with
-            | some (args, .kw .RPAREN :: rest3) => some (.func a b false args, rest3)
-            | _ => none
-          | .kw .DOT :: t3 :: rest'' =>
-            match identOf t3 with
-            | some c => some (.col a b c, rest'')
-            | none => none
-          | _ => some (.col "" a b, rest')
-      | _ => some (.col "" "" a, rest)
-  | [] => none
+  | _ => none
 
 /-- the postfix operators `-> field`, `:: type`, `[ index ]` (they have no precedence: always shifted) -/
 def postfixLoop : Nat → Expr → List Tok → Option (Expr × List Tok)
   | 0, _, _ => none
-  | m + 1, acc, .kw .JSON_EXTRACT_OP :: t :: rest =>
-    match identOf t with
-    | some f => postfixLoop m (.field acc f) rest
-    | none => none
-  | _ + 1, _, .kw .JSON_EXTRACT_OP :: [] => none
-  | m + 1, acc, .kw .LIST_ARG :: rest =>
-    match parseConvTy rest with
-    | some (t, rest') => postfixLoop m (.convert acc t) rest'
-    | none => none
-  | m + 1, acc, .kw .LBRACK :: rest =>
-    match prev.val rest with
-    | some (i, .kw .RBRACK :: rest') => postfixLoop m (.index acc i) rest'
-    | _ => none
-  | _ + 1, acc, ts => some (acc, ts)
+  | _ + 1, acc, [] => some (acc, [])
+  | m + 1, acc, t :: rest =>
+    if t = Tok.kw .JSON_EXTRACT_OP then
+      match rest with
+      | f :: rest' =>
+        match identOf f with
+        | some name => postfixLoop m (.field acc name) rest'
+        | none => none
+      | [] => none
+    else if t = Tok.kw .LIST_ARG then
+      match parseConvTy rest with
+      | some (ty, rest') => postfixLoop m (.convert acc ty) rest'
+      | none => none
+    else if t = Tok.kw .LBRACK then
+      match prev.val rest with
+      | some (i, c :: rest') => if c = Tok.kw .RBRACK then postfixLoop m (.index acc i) rest' else none
+      | _ => none
+    else some (acc, t :: rest)
 
 def parsePostfix : P Expr := fun ts =>
   match parseAtom prev ts with
   | none => none
-  | some (a, rest) => postfixLoop prev (rest.length + 1) a rest
+  | some (a, rest) => postfixLoop prev (ts.length + 1) a rest
 
 /-- unary `- + ! ~` (right associative, binds tighter than every binary operator) -/
 def parseUnary : P Expr
-  | .kw .MINUS :: ts =>
-    match parseUnary ts with
-    | some (e, rest) => some (mkNeg e, rest)
-    | none => none
-  | .kw .PLUS :: ts =>
-    match parseUnary ts with
-    | some (e, rest) => some (mkPos e, rest)
-    | none => none
-  | .kw .BANG :: ts =>
-    match parseUnary ts with
-    | some (e, rest) => some (.un .bang e, rest)
-    | none => none
-  | .kw .TILDE :: ts =>
-    match parseUnary ts with
-    | some (e, rest) => some (.un .tilde e, rest)
-    | none => none
-  | ts => parsePostfix prev ts
+  | [] => none
+  | t :: ts =>
+    if t = Tok.kw .MINUS then
+      match parseUnary ts with
+      | some (e, rest) => some (mkNeg e, rest)
+      | none => none
+    else if t = Tok.kw .PLUS then
+      match parseUnary ts with
+      | some (e, rest) => some (mkPos e, rest)
+      | none => none
+    else if t = Tok.kw .BANG then
+      match parseUnary ts with
+      | some (e, rest) => some (.un .bang e, rest)
+      | none => none
+    else if t = Tok.kw .TILDE then
+      match parseUnary ts with
+      | some (e, rest) => some (.un .tilde e, rest)
+      | none => none
+    else parsePostfix prev (t :: ts)
 
 def parseL11 : P Expr := binLevel (parseUnary prev) opsL11 Expr.bin
 def parseL10 : P Expr := binLevel (parseL11 prev) opsL10 Expr.bin
@@ -338,86 +414,78 @@ def parseVal : P Expr := binLevel (parseL7 prev) opsL6 Expr.bin
 
 /-- `col_tuple`: `( expression_list )` or a subquery -/
 def parseColTuple : P Expr := fun ts =>
-  match ts with
-  | .kw .LPAREN :: rest =>
-    if startsSelect rest then
-      match parseSubqueryBody prev rest with
+  if headIs .LPAREN ts then
+    (if startsSelect ts.tail then
+      match parseSubqueryBody prev ts.tail with
       | some (s, rest') => some (.subq s, rest')
       | none => none
+     else
+      match parseExprListClose prev ts.tail with
+      | some (es, rest') => some (.tuple es, rest')
+      | none => none)
+  else none
+
+/-- the right operand of a comparison-like operator -/
+def parseCmpRhs (op : CmpOp) (l : Expr) : P Expr := fun ts =>
+  match (if op.isIn then parseColTuple prev ts else parseVal prev ts) with
+  | some (r, rest) => some (.cmp op l r, rest)
+  | none => none
+
+/-- what follows the left operand `l` of a `condition` -/
+def parseCondRest (l : Expr) : P Expr := fun rest =>
+  match rest with
+  | [] => some (l, [])
+  | t :: rest' =>
+    if t = Tok.kw .IN then parseCmpRhs prev .in_ l rest'
+    else if t = Tok.kw .LIKE then parseCmpRhs prev .like l rest'
+    else if t = Tok.kw .REGEXP then parseCmpRhs prev .regexp l rest'
+    else if t = Tok.kw .NOT then
+      (if headIs .IN rest' then parseCmpRhs prev .notIn l rest'.tail
+       else if headIs .LIKE rest' then parseCmpRhs prev .notLike l rest'.tail
+       else if headIs .REGEXP rest' then parseCmpRhs prev .notRegexp l rest'.tail
+       else none)
     else
-      match sepBy1 prev.expr rest with
-      | some (es, .kw .RPAREN :: rest') => some (.tuple es, rest')
-      | _ => none
-  | _ => none
+      match cmpOpOf t with
+      | some op => parseCmpRhs prev op l rest'
+      | none => some (l, t :: rest')
 
 /-- `condition` or a bare `value_expression` -/
 def parseCond : P Expr := fun ts =>
-  match ts with
-  | .kw .EXISTS :: .kw .LPAREN :: rest =>
-    if startsSelect rest then
-      match parseSubqueryBody prev rest with
+  if headIs .EXISTS ts then
+    (if headIs .LPAREN ts.tail ∧ startsSelect ts.tail.tail then
+      match parseSubqueryBody prev ts.tail.tail with
       | some (s, rest') => some (.exists_ s, rest')
       | none => none
-    else none
-  | _ =>
+     else none)
+  else
     match parseVal prev ts with
     | none => none
-    | some (l, rest) =>
-      match rest with
-      | .kw .IN :: rest' =>
-        match parseColTuple prev rest' with
-        | some (r, rest'') => some (.cmp .in_ l r, rest'')
-        | none => none
-      | .kw .NOT :: .kw .IN :: rest' =>
-        match parseColTuple prev rest' with
-        | some (r, rest'') => some (.cmp .notIn l r, rest'')
-        | none => none
-      | .kw .LIKE :: rest' =>
-        match parseVal prev rest' with
-        | some (r, rest'') => some (.cmp .like l r, rest'')
-        | none => none
-      | .kw .NOT :: .kw .LIKE :: rest' =>
-        match parseVal prev rest' with
-        | some (r, rest'') => some (.cmp .notLike l r, rest'')
-        | none => none
-      | .kw .REGEXP :: rest' =>
-        match parseVal prev rest' with
-        | some (r, rest'') => some (.cmp .regexp l r, rest'')
-        | none => none
-      | .kw .NOT :: .kw .REGEXP :: rest' =>
-        match parseVal prev rest' with
-        | some (r, rest'') => some (.cmp .notRegexp l r, rest'')
-        | none => none
-      | .kw .NOT :: _ => none
-      | t :: rest' =>
-        match cmpOpOf t with
-        | some op =>
-          match parseVal prev rest' with
-          | some (r, rest'') => some (.cmp op l r, rest'')
-          | none => none
-        | none => some (l, rest)
-      | [] => some (l, [])
+    | some (l, rest) => parseCondRest prev l rest
 
 /-- `expression IS is_suffix` (postfix, binds tighter than NOT) -/
 def isLoop : Nat → Expr → List Tok → Option (Expr × List Tok)
   | 0, _, _ => none
-  | m + 1, acc, .kw .IS :: rest =>
-    match parseIsSuffix rest with
-    | some (op, rest') => isLoop m (.is op acc) rest'
-    | none => none
-  | _ + 1, acc, ts => some (acc, ts)
+  | _ + 1, acc, [] => some (acc, [])
+  | m + 1, acc, t :: rest =>
+    if t = Tok.kw .IS then
+      match parseIsSuffix rest with
+      | some (op, rest') => isLoop m (.is op acc) rest'
+      | none => none
+    else some (acc, t :: rest)
 
 def parseIs : P Expr := fun ts =>
   match parseCond prev ts with
   | none => none
-  | some (e, rest) => isLoop (rest.length + 1) e rest
+  | some (e, rest) => isLoop (ts.length + 1) e rest
 
 def parseNot : P Expr
-  | .kw .NOT :: ts =>
-    match parseNot ts with
-    | some (e, rest) => some (.not e, rest)
-    | none => none
-  | ts => parseIs prev ts
+  | [] => none
+  | t :: ts =>
+    if t = Tok.kw .NOT then
+      match parseNot ts with
+      | some (e, rest) => some (.not e, rest)
+      | none => none
+    else parseIs prev (t :: ts)
 
 def parseAnd : P Expr := binLevel (parseNot prev) andOpOf (fun _ l r => Expr.and l r)
 /-- `expression` -/
@@ -428,83 +496,107 @@ def parseExpr : P Expr := binLevel (parseAnd prev) orOpOf (fun _ l r => Expr.or 
 /-- one `table_valued_function_argument` -/
 def parseTvfArg : P Tbl := fun ts =>
   match ts with
-  | t :: .kw .RIGHTARROW :: rest =>
+  | t :: a :: rest =>
     match identOf t with
     | none => none
     | some name =>
-      match rest with
-      | .kw .TABLE :: .kw .LPAREN :: rest' =>
-        match prev.tbl rest' with
-        | some (tb, .kw .RPAREN :: rest'') => some (.argT name tb, rest'')
-        | _ => none
-      | .kw .DESCRIPTOR :: .kw .LPAREN :: rest' =>
-        match parseColumnName rest' with
-        | some ((q2, q1, c), .kw .RPAREN :: rest'') => some (.argD name q2 q1 c, rest'')
-        | _ => none
-      | _ =>
-        match prev.expr rest with
-        | some (e, rest') => some (.argE name e, rest')
-        | none => none
+      if a = Tok.kw .RIGHTARROW then
+        (if headIs .TABLE rest then
+          (if headIs .LPAREN rest.tail then
+            match prev.tbl rest.tail.tail with
+            | some (tb, c :: rest') => if c = Tok.kw .RPAREN then some (.argT name tb, rest') else none
+            | _ => none
+           else none)
+         else if headIs .DESCRIPTOR rest then
+          (if headIs .LPAREN rest.tail then
+            match parseColumnName rest.tail.tail with
+            | some ((q2, q1, c), cl :: rest') => if cl = Tok.kw .RPAREN then some (.argD name q2 q1 c, rest') else none
+            | _ => none
+           else none)
+         else
+          match prev.expr rest with
+          | some (e, rest') => some (.argE name e, rest')
+          | none => none)
+      else none
   | _ => none
+
+/-- `table_valued_function_arguments_opt closeb as_opt table_id` -/
+def parseTvfRest (f : String) : P Tbl := fun ts =>
+  if headIs .RPAREN ts then
+    match parseAliasMust ts.tail with
+    | some (a, rest) => some (.tvf f [] a, rest)
+    | none => none
+  else
+    match sepBy1 (parseTvfArg prev) ts with
+    | some (args, c :: rest) =>
+      if c = Tok.kw .RPAREN then
+        match parseAliasMust rest with
+        | some (a, rest') => some (.tvf f args a, rest')
+        | none => none
+      else none
+    | _ => none
+
+/-- after `(` in table position: derived table or parenthesised table references -/
+def parseTableParenRest : P Tbl := fun rest =>
+  if startsSelect rest then
+    match parseSubqueryBody prev rest with
+    | some (s, rest') =>
+      match parseAliasMust rest' with
+      | some (a, rest'') => some (.sub s a, rest'')
+      | none => none
+    | none => none
+  else
+    match sepBy1 prev.tbl rest with
+    | some (tbs, c :: rest') => if c = Tok.kw .RPAREN then some (.paren tbs, rest') else none
+    | _ => none
+
+/-- `table_name as_opt_id` after the first identifier `n` -/
+def parseTableNameRest (n : String) : P Tbl := fun rest =>
+  if headIs .DOT rest then
+    match rest.tail with
+    | t2 :: rest' =>
+      match identOf t2 with
+      | some n2 =>
+        match parseAliasOpt rest' with
+        | some (a, rest'') => some (.table n n2 a, rest'')
+        | none => none
+      | none => none
+    | [] => none
+  else
+    match parseAliasOpt rest with
+    | some (a, rest') => some (.table "" n a, rest')
+    | none => none
 
 /-- `table_factor` -/
 def parseTableFactor : P Tbl := fun ts =>
   match ts with
-  | .kw .LPAREN :: rest =>
-    if startsSelect rest then
-      match parseSubqueryBody prev rest with
-      | some (s, rest') =>
-        match parseAliasMust rest' with
-        | some (a, rest'') => some (.sub s a, rest'')
-        | none => none
-      | none => none
-    else
-      match sepBy1 prev.tbl rest with
-      | some (tbs, .kw .RPAREN :: rest') => some (.paren tbs, rest')
-      | _ => none
-  | .id f :: .kw .LPAREN :: .kw .RPAREN :: rest =>
-    match parseAliasMust rest with
-    | some (a, rest') => some (.tvf f [] a, rest')
-    | none => none
-  | .id f :: .kw .LPAREN :: rest =>
-    match sepBy1 (parseTvfArg prev) rest with
-    | some (args, .kw .RPAREN :: rest') =>
-      match parseAliasMust rest' with
-      | some (a, rest'') => some (.tvf f args a, rest'')
-      | none => none
-    | _ => none
-  | t1 :: .kw .DOT :: t2 :: rest =>
-    match identOf t1, identOf t2 with
-    | some q, some n =>
-      match parseAliasOpt rest with
-      | some (a, rest') => some (.table q n a, rest')
-      | none => none
-    | _, _ => none
-  | t1 :: rest =>
-    match identOf t1 with
-    | some n =>
-      match parseAliasOpt rest with
-      | some (a, rest') => some (.table "" n a, rest')
-      | none => none
+  | [] => none
+  | .kw k :: rest => if k = .LPAREN then parseTableParenRest prev rest else none
+  | .id f :: rest => if headIs .LPAREN rest then parseTvfRest prev f rest.tail else parseTableNameRest f rest
+  | .nrkw f :: rest => parseTableNameRest f rest
+  | _ => none
+
+def parseColIdent : P String := fun ts =>
+  match ts with
+  | t :: r =>
+    match identOf t with
+    | some c => some (c, r)
     | none => none
   | [] => none
 
 /-- `join_condition_opt` : ON expression | USING ( column_list ) | nothing -/
 def parseJoinCondOpt : P (Option Expr × List String) := fun ts =>
-  match ts with
-  | .kw .ON :: rest =>
-    match parseExpr prev rest with
+  if headIs .ON ts then
+    match parseExpr prev ts.tail with
     | some (e, rest') => some ((some e, []), rest')
     | none => none
-  | .kw .USING :: .kw .LPAREN :: rest =>
-    match sepBy1 (fun ts => match ts with
-        | t :: r => match identOf t with
-          | some c => some (c, r)
-          | none => none
-        | [] => none) rest with
-    | some (cols, .kw .RPAREN :: rest') => some ((none, cols), rest')
-    | _ => none
-  | _ => some ((none, []), ts)
+  else if headIs .USING ts then
+    (if headIs .LPAREN ts.tail then
+      match sepBy1 parseColIdent ts.tail.tail with
+      | some (cols, c :: rest') => if c = Tok.kw .RPAREN then some ((none, cols), rest') else none
+      | _ => none
+     else none)
+  else some ((none, []), ts)
 
 /-- the join keyword(s) at the head of the token list: strategy, kind, remaining tokens -/
 def parseJoinOp : List Tok → Option (Strategy × JoinKind × List Tok)
@@ -530,47 +622,53 @@ def parseJoinOp : List Tok → Option (Strategy × JoinKind × List Tok)
   | .kw .NATURAL :: .kw .OUTER :: .kw .JOIN :: ts => some (.none_, .naturalRight, ts)
   | _ => none
 
-def startsJoin : List Tok → Bool
-  | .kw .JOIN :: _ => true | .kw .INNER :: _ => true | .kw .CROSS :: _ => true | .kw .LOOKUP :: _ => true
-  | .kw .STREAM :: _ => true | .kw .LEFT :: _ => true | .kw .RIGHT :: _ => true | .kw .OUTER :: _ => true
-  | .kw .NATURAL :: _ => true
+def isJoinStart : Tok → Bool
+  | .kw .JOIN => true | .kw .INNER => true | .kw .CROSS => true | .kw .LOOKUP => true
+  | .kw .STREAM => true | .kw .LEFT => true | .kw .RIGHT => true | .kw .OUTER => true
+  | .kw .NATURAL => true
   | _ => false
+
+/-- the right operand and condition of one join, for an accumulated left operand -/
+def parseJoinRest (acc : Tbl) (strat : Strategy) (kind : JoinKind) : P Tbl := fun rest =>
+  if kind.isInner then
+    match parseTableFactor prev rest with
+    | none => none
+    | some (r, rest') =>
+      match parseJoinCondOpt prev rest' with
+      | none => none
+      | some ((on, us), rest'') => some (.join acc strat kind r on us, rest'')
+  else if kind.isOuter then
+    match prev.tbl rest with
+    | none => none
+    | some (r, rest') =>
+      match parseJoinCondOpt prev rest' with
+      | some ((on, us), rest'') =>
+        if on.isSome ∨ ¬ us.isEmpty then some (.join acc strat kind r on us, rest'') else none
+      | none => none
+  else
+    match parseTableFactor prev rest with
+    | none => none
+    | some (r, rest') => some (.join acc strat kind r none [], rest')
 
 /-- `join_table` is left recursive: `acc (join …)*` -/
 def joinLoop : Nat → Tbl → List Tok → Option (Tbl × List Tok)
   | 0, _, _ => none
-  | m + 1, acc, ts =>
-    if startsJoin ts then
-      match parseJoinOp ts with
+  | _ + 1, acc, [] => some (acc, [])
+  | m + 1, acc, t :: ts =>
+    if isJoinStart t then
+      match parseJoinOp (t :: ts) with
       | none => none
       | some (strat, kind, rest) =>
-        match kind with
-        | .join =>
-          match parseTableFactor prev rest with
-          | none => none
-          | some (r, rest') =>
-            match parseJoinCondOpt prev rest' with
-            | none => none
-            | some ((on, us), rest'') => joinLoop m (.join acc strat kind r on us) rest''
-        | .natural | .naturalLeft | .naturalRight =>
-          match parseTableFactor prev rest with
-          | none => none
-          | some (r, rest') => joinLoop m (.join acc strat kind r none []) rest'
-        | .left | .right | .outer =>
-          match prev.tbl rest with
-          | none => none
-          | some (r, rest') =>
-            match parseJoinCondOpt prev rest' with
-            | some ((some e, us), rest'') => joinLoop m (.join acc strat kind r (some e) us) rest''
-            | some ((none, c :: cs), rest'') => joinLoop m (.join acc strat kind r none (c :: cs)) rest''
-            | _ => none
-    else some (acc, ts)
+        match parseJoinRest prev acc strat kind rest with
+        | none => none
+        | some (acc', rest') => joinLoop m acc' rest'
+    else some (acc, t :: ts)
 
 /-- `table_reference` -/
 def parseTableRef : P Tbl := fun ts =>
   match parseTableFactor prev ts with
   | none => none
-  | some (t, rest) => joinLoop prev (rest.length + 1) t rest
+  | some (t, rest) => joinLoop prev (ts.length + 1) t rest
 
 /-! ### select statements -/
 
@@ -590,65 +688,59 @@ def parseTrigger : P Expr := fun ts =>
 
 def parseOrder : P Expr := fun ts =>
   match parseExpr prev ts with
-  | some (e, .kw .ASC :: rest) => some (.order e false, rest)
-  | some (e, .kw .DESC :: rest) => some (.order e true, rest)
-  | some (e, rest) => some (.order e false, rest)
+  | some (e, rest) =>
+    if headIs .ASC rest then some (.order e false, rest.tail)
+    else if headIs .DESC rest then some (.order e true, rest.tail)
+    else some (.order e false, rest)
   | none => none
 
+/-- `WHERE expression` / `HAVING expression` or nothing -/
 def parseWhereOpt (kw : Kw) : P (Option Expr) := fun ts =>
-  match ts with
-  | .kw k :: rest =>
-    if k = kw then
-      match parseExpr prev rest with
-      | some (e, rest') => some (some e, rest')
-      | none => none
-    else some (none, ts)
-  | _ => some (none, ts)
+  if headIs kw ts then
+    match parseExpr prev ts.tail with
+    | some (e, rest') => some (some e, rest')
+    | none => none
+  else some (none, ts)
 
 def parseGroupByOpt : P (List Expr) := fun ts =>
-  match ts with
-  | .kw .GROUP :: .kw .BY :: rest => sepBy1 (parseExpr prev) rest
-  | _ => some ([], ts)
+  if headIs .GROUP ts then
+    (if headIs .BY ts.tail then sepBy1 (parseExpr prev) ts.tail.tail else none)
+  else some ([], ts)
 
 def parseTriggerOpt : P (List Expr) := fun ts =>
-  match ts with
-  | .kw .TRIGGER :: rest => sepBy1 (parseTrigger prev) rest
-  | _ => some ([], ts)
+  if headIs .TRIGGER ts then sepBy1 (parseTrigger prev) ts.tail else some ([], ts)
 
 def parseOrderByOpt : P (List Expr) := fun ts =>
-  match ts with
-  | .kw .ORDER :: .kw .BY :: rest => sepBy1 (parseOrder prev) rest
-  | _ => some ([], ts)
+  if headIs .ORDER ts then
+    (if headIs .BY ts.tail then sepBy1 (parseOrder prev) ts.tail.tail else none)
+  else some ([], ts)
 
 /-- `limit_opt` as (offset, rowcount) -/
 def parseLimitOpt : P (Option Expr × Option Expr) := fun ts =>
-  match ts with
-  | .kw .LIMIT :: rest =>
-    match parseExpr prev rest with
-    | some (a, .kw .COMMA :: rest') =>
-      match parseExpr prev rest' with
-      | some (b, rest'') => some ((some a, some b), rest'')
-      | none => none
-    | some (a, .kw .OFFSET :: rest') =>
-      match parseExpr prev rest' with
-      | some (b, rest'') => some ((some b, some a), rest'')
-      | none => none
-    | some (a, rest') => some ((none, some a), rest')
+  if headIs .LIMIT ts then
+    match parseExpr prev ts.tail with
+    | some (a, rest') =>
+      if headIs .COMMA rest' then
+        match parseExpr prev rest'.tail with
+        | some (b, rest'') => some ((some a, some b), rest'')
+        | none => none
+      else if headIs .OFFSET rest' then
+        match parseExpr prev rest'.tail with
+        | some (b, rest'') => some ((some b, some a), rest'')
+        | none => none
+      else some ((none, some a), rest')
     | none => none
-  | _ => some ((none, none), ts)
+  else some ((none, none), ts)
 
 def parseFromOpt : P (List Tbl) := fun ts =>
-  match ts with
-  | .kw .FROM :: rest => sepBy1 (parseTableRef prev) rest
-  | _ => some ([.table "" "dual" ""], ts)
+  if headIs .FROM ts then sepBy1 (parseTableRef prev) ts.tail else some ([.table "" "dual" ""], ts)
 
 /-- `base_select order_by_opt limit_opt` -/
 def parseSelect : P Sel := fun ts =>
-  match ts with
-  | .kw .SELECT :: rest =>
-    let (distinct, rest) := match rest with
-      | .kw .DISTINCT :: r => (true, r)
-      | r => (false, r)
+  if headIs .SELECT ts then
+    let rest := ts.tail
+    let distinct := headIs .DISTINCT rest
+    let rest := if distinct then rest.tail else rest
     match sepBy1 (parseItemWith (parseExpr prev)) rest with
     | none => none
     | some (items, rest) =>
@@ -674,51 +766,51 @@ def parseSelect : P Sel := fun ts =>
     | none => none
     | some ((limOff, limCnt), rest) =>
       some (.select distinct items from_ where_ groupBy having trig orderBy limOff limCnt, rest)
-  | _ => none
+  else none
 
 /-- `cte`: `table_alias AS ( select_statement )` -/
 def parseCte : P Sel := fun ts =>
   match ts with
-  | t :: .kw .AS :: .kw .LPAREN :: rest =>
-    let name : Option String := match t with
-      | .str s => some s
-      | t => identOf t
-    match name with
+  | t :: a :: l :: rest =>
+    match aliasOf t with
     | none => none
     | some n =>
-      match prev.sel rest with
-      | some (s, .kw .RPAREN :: rest') => some (.cte n s, rest')
-      | _ => none
+      if a = Tok.kw .AS ∧ l = Tok.kw .LPAREN then
+        match parseSubqueryBody prev rest with
+        | some (s, rest') => some (.cte n s, rest')
+        | none => none
+      else none
   | _ => none
 
-/-- `(, cte)*` then `comma_opt`: a comma followed by something that is not a cte start is the optional comma -/
+/-- `(, cte)*` then `comma_opt`: a comma followed by the start of a select statement is the optional comma -/
 def cteTail : Nat → List Tok → Option (List Sel × List Tok)
   | 0, _ => none
-  | m + 1, .kw .COMMA :: ts =>
-    if startsSelect ts then some ([], ts)
-    else
-      match parseCte prev ts with
-      | none => none
-      | some (c, ts') =>
-        match cteTail m ts' with
+  | _ + 1, [] => some ([], [])
+  | m + 1, t :: ts =>
+    if t = Tok.kw .COMMA then
+      (if startsSelect ts then some ([], ts)
+       else
+        match parseCte prev ts with
         | none => none
-        | some (cs, ts'') => some (c :: cs, ts'')
-  | _ + 1, ts => some ([], ts)
+        | some (c, ts') =>
+          match cteTail m ts' with
+          | none => none
+          | some (cs, ts'') => some (c :: cs, ts''))
+    else some ([], t :: ts)
 
 /-- `select_statement` -/
 def parseSelStmt : P Sel := fun ts =>
-  match ts with
-  | .kw .WITH :: rest =>
-    match parseCte prev rest with
+  if headIs .WITH ts then
+    match parseCte prev ts.tail with
     | none => none
     | some (c, rest') =>
-      match cteTail prev (rest'.length + 1) rest' with
+      match cteTail prev (ts.length + 1) rest' with
       | none => none
       | some (cs, rest'') =>
         match prev.sel rest'' with
         | some (s, rest3) => some (.with_ (c :: cs) s, rest3)
         | none => none
-  | _ => parseSelect prev ts
+  else parseSelect prev ts
 
 end level
 
@@ -733,7 +825,7 @@ def parsers : Nat → Parsers
 def parseStmtFuel (n : Nat) (ts : List Tok) : Option Sel :=
   match (parsers n).sel ts with
   | some (s, []) => some s
-  | some (s, [.kw .SEMI]) => some s
+  | some (s, [t]) => if t = Tok.kw .SEMI then some s else none
   | _ => none
 
 /-- `sqlparser.Parse` on the fragment -/
